@@ -484,7 +484,21 @@ func CallMonitored(entry string, p *path.Path, doc any, o Opts, m *CallMon) (out
 			FaultSink(entry, p, doc, o, m.Faults)
 		}
 	}()
-	opts := o.Exec()
+	// The options arrive as a slice with spare capacity (a caller who built
+	// them with append and passes opts...): the callee may read them, not
+	// append to them - that would write into the caller's backing array.
+	given := o.Exec()
+	opts := make([]exec.Option, len(given), len(given)+3)
+	copy(opts, given)
+	defer func() {
+		for _, x := range opts[len(given):cap(opts)] {
+			if x != nil {
+				// (reported by the deferred function above, which runs after this one)
+				m.Faults = append(m.Faults, "options-slice-written: the call appended to the caller's option slice (spare capacity of the backing array overwritten)")
+				break
+			}
+		}
+	}()
 	switch entry {
 	case "query":
 		out.Items, out.Err = p.Query(ctx, doc, opts...)
